@@ -127,4 +127,3 @@ Example C06_update_refuted : exists tr k f',
   run (mkFs (Some [1]) None false false) (firstn k tr) = Some f' /\ fP f' = Some [1; 2] /\
   tr = [OpenRW P; Write P 2; Write P 3; Close P].      (* neither the old [1] nor the new [1;2;3] *)
 Proof. exists [OpenRW P; Write P 2; Write P 3; Close P], 2, (mkFs (Some [1; 2]) None true false). repeat split. Qed.
-Print Assumptions C06_atomic.
